@@ -112,6 +112,9 @@ func pfCoqType(kind string) string {
 	if kind == "list" {
 		return "list Z"
 	}
+	if strings.HasSuffix(kind, "?") {
+		return "option Z"
+	}
 	return "Z"
 }
 
@@ -147,7 +150,12 @@ type pfFun struct {
 	params  []*types.Var        // scalar parameters, in order (blank and context parameters are dropped)
 	dropped map[int]bool        // indices of dropped parameters
 	structP map[*types.Var]bool // struct-typed parameters (fields become inputs on demand)
-	resK    []string            // result kinds
+	resK    []string            // result kinds, flattened: a struct result contributes one entry per scalar field
+	// per Go result: the field names / kinds of a struct result (nil = a scalar result); may the
+	// result be a nil Int / Dec (then its kind in resK is "int?" / "dec?": option Z)
+	resShape  [][]string
+	resFieldK [][]string
+	resNil    []bool
 	// filled by the translation
 	fixed    []pfParam
 	extra    []pfParam         // inputs discovered in the body (struct fields, store reads), in order of first use
@@ -715,10 +723,27 @@ func (t *pfTr) binary(x *ast.BinaryExpr, en pfEnv, hint string, k func(string) s
 			return pfBind("if "+a+" then Ok true else "+right, v, k(v))
 		})
 	}
+	if (x.Op == token.EQL || x.Op == token.NEQ) && (lk == "int" || lk == "dec") && rk == lk {
+		// == on the structs Int{i *big.Int} / LegacyDec{i *big.Int} compares the POINTERS.  A constructor
+		// call returns a freshly allocated big.Int, which no other value points to: never equal.
+		other := x.X
+		if !t.isFreshAlloc(x.Y) {
+			if !t.isFreshAlloc(x.X) {
+				return t.unrec(x, "pointer comparison of Int / Dec values")
+			}
+			other = x.Y
+		}
+		return t.expr(other, en, "", func(string) string {
+			if x.Op == token.NEQ {
+				return k("true")
+			}
+			return k("false")
+		})
+	}
 	return t.expr(x.X, en, "", func(a string) string {
 		return t.expr(x.Y, en, "", func(b string) string {
-			if a == pfNil || b == pfNil {
-				return t.unrec(x, "operator on a nil value")
+			if pfOpaque(a) || pfOpaque(b) {
+				return t.unrec(x, "operator on a nil or untranslated value")
 			}
 			cmp := map[token.Token]string{token.EQL: "=?", token.LSS: "<?", token.GTR: ">?", token.LEQ: "<=?", token.GEQ: ">=?"}
 			switch {
@@ -910,12 +935,26 @@ func (t *pfTr) call(x *ast.CallExpr, en pfEnv, hint string, k func([]string) str
 						if r == pfNil {
 							return one("true")
 						}
+						if strings.HasPrefix(r, pfOptPrefix) {
+							return one("(match " + r[len(pfOptPrefix):] + " with Some _ => false | None => true end)")
+						}
 						return one("false")
 					}
 					for _, a := range all {
 						if a == pfNil {
 							// method call on / with a nil Int or Dec: nil *big.Int dereference
 							return "Panic"
+						}
+					}
+					for i, a := range all {
+						if strings.HasPrefix(a, pfOptPrefix) {
+							// a result of a translated function that may be nil: the dereference panics when it is
+							return t.derefOpt(x, all, i, func(all2 []string) string {
+								return t.intDecMethod(x, rk, name, all2, hint, one)
+							})
+						}
+						if pfOpaque(a) {
+							return t.unrec(x, "method call with an untranslated value")
 						}
 					}
 					pure, mon := pfDecPure, pfDecMon
@@ -1012,6 +1051,19 @@ func (t *pfTr) named(x *ast.CallExpr, full string, recv ast.Expr, en pfEnv, hint
 				for _, a := range as {
 					if a == pfNil {
 						return "Panic"
+					}
+				}
+				for i, a := range as {
+					if strings.HasPrefix(a, pfOptPrefix) {
+						return t.derefOpt(x, as, i, func(as2 []string) string {
+							if s, ok := pfFormat(f, as2); ok {
+								return one(s)
+							}
+							return t.unrec(x, "arity")
+						})
+					}
+					if pfOpaque(a) {
+						return t.unrec(x, "constructor applied to an untranslated value")
 					}
 				}
 				if s, ok := pfFormat(f, as); ok {
@@ -1190,24 +1242,40 @@ func (t *pfTr) genCall(x *ast.CallExpr, g *pfFun, recv ast.Expr, en pfEnv, hint 
 		if t.pure > 0 {
 			return t.unrec(x, "call in a constant initialiser")
 		}
-		n := len(g.resK)
-		names := make([]string, n)
+		goN := len(g.resShape)
+		var names, outs []string
 		var hints []string
 		if t.callHintsFor == x {
 			hints = t.callHints
 		}
-		for i := range names {
+		for i := 0; i < goN; i++ {
 			h := "r"
-			if n == 1 && hint != "" {
+			if goN == 1 && hint != "" {
 				h = hint
-			} else if len(hints) == n && hints[i] != "_" {
+			} else if len(hints) == goN && hints[i] != "_" {
 				h = hints[i]
 			}
-			names[i] = t.fresh(h)
-			t.binder[names[i]] = true
+			if g.resShape[i] == nil {
+				n := t.fresh(h)
+				t.binder[n] = true
+				names = append(names, n)
+				if g.resNil[i] {
+					n = pfOptPrefix + n // may be a nil Int / Dec: option Z
+				}
+				outs = append(outs, n)
+				continue
+			}
+			// a struct result: one component per scalar field
+			st := &pfStruct{over: map[string]string{}}
+			for _, fn := range g.resShape[i] {
+				n := t.fresh(fn)
+				names = append(names, n)
+				st.over[fn] = n
+			}
+			outs = append(outs, t.newStruct(st))
 		}
 		pat, _ := pfTuple(names)
-		return pfBind(op, pat, k(names))
+		return pfBind(op, pat, k(outs))
 	})
 }
 
@@ -1583,7 +1651,7 @@ func (t *pfTr) assign(x *ast.AssignStmt, en pfEnv, k func(pfEnv) string) string 
 					if id.Name == "_" {
 						continue
 					}
-					if t.adopt(rs[j], id.Name) {
+					if pfOpaque(rs[j]) || t.adopt(rs[j], id.Name) {
 						e2 = e2.with(t.objOf(id), rs[j])
 						continue
 					}
@@ -1657,10 +1725,9 @@ func (t *pfTr) ret(x *ast.ReturnStmt, en pfEnv) string {
 	sig := t.f.obj.Type().(*types.Signature)
 	n := sig.Results().Len()
 	finish := func(vals []string) string {
-		for i, v := range vals {
-			if pfOpaque(v) {
-				return t.unrec(x, fmt.Sprintf("result %d is a nil / untranslated value", i))
-			}
+		vals, badRes := t.flattenResults(vals)
+		if badRes != "" {
+			return t.unrec(x, badRes)
 		}
 		outs, bad := t.cellOutputs(en)
 		if bad != "" {
